@@ -11,13 +11,15 @@ import contracts.eam_tabulation as ET
 import contracts.refdata as RDc
 import contracts.builders_eam as BE
 import contracts.species as SPc
+import contracts.builders as BU
 
 F = SF.FILE
 FUNCTIONS = [(F, q) for q in ('_writeSetFLHeader', '_writeSetFLElementHeader', '_writeSetFLEmbeddingFunction', '_writeDensityFunction',
                               '_writeSetFLDensityFunction', '_writeSetFLPairPots', 'writeSetFL')] + [(ET.FILE, 'SetFL_EAMTabulation.write')] + \
             [(RDc.F_RD, 'Reference_Data.get')] + [(RDc.F_EB, 'EAM_Potential_Builder.' + q) for q in ('_get_mass', '_get_atomic_number', '_get_lattice_constant', '_get_lattice_type', '_create_eam_potential')] + \
             [(BE.F_EB, 'EAM_Potential_Builder.' + q) for q in ('_to_potential_form_dict', '_embed_species', '_density_species', '_add_null_embedding_functions', '_add_null_density_functions', '_init_eampotentials')] + \
-            [(SPc.F_CP, 'ConfigParser.species'), (SPc.F_CP, 'ConfigParser._convert_species_type')]
+            [(SPc.F_CP, 'ConfigParser.species'), (SPc.F_CP, 'ConfigParser._convert_species_type')] + \
+            [(BU.FILE, 'Pair_Potentials_From_Tuples_Builder.' + q) for q in ('__init__', '_create_potential', '_init_potentials')]      # the [Pair] entries of an EAM model: one Potential per entry, with the function its own definition denotes
 SPECSEQS = [SF.fvals, SF.pvals, SF.labels, BE.species_seq, SPc.stripped]
 
 def lemmas():
